@@ -148,6 +148,7 @@ inductive Label where
   | globalFire
   | downReset (reason : Reason)
   | connClose
+  | terminate (code : Nat)
   deriving DecidableEq, Repr, Inhabited, Hashable
 
 def emit (s : S) (e : Ev) : S := { s with trace := s.trace ++ [e] }
@@ -604,14 +605,24 @@ def downResetL (c : Cfg) (s : S) (reason : Reason) : S :=
 def connClose (s : S) : S :=
   if s.cleaned || s.procDone then s else dsOnResetStream s .StreamConnectionTermination
 
-/-- asynchronous `TerminateStream(code)` of a receiver-filter handler -/
-def terminate (s : S) (code : Nat) : S :=
-  if s.resp.isSome then s
+/-- the worker is parked in `waitNotify` and nothing has woken it yet -/
+def parked (s : S) : Bool := s.running && s.phase == .WaitNotify && !s.notify
+
+/-- asynchronous `TerminateStream(code)` of a receiver-filter handler (`streamfilters.go`), called by another goroutine
+while the worker is parked waiting for the upstream — the asynchronous-filter use; a call racing with a running worker
+is not modelled (the label is a no-op then).  It is refused when response headers are stored
+(`downstreamRespHeaders != nil`: also the stale headers of a try that was retried because of its status), when the
+stream is cleaned, or when the CAS on `upstreamResponseReceived` is lost.  Otherwise: both timers stopped, the
+upstream request reset (as the timeout callbacks do), the DownStreamTerminate flag, a local reply with `code`, wake-up. -/
+def terminateL (c : Cfg) (s : S) (code : Nat) : S :=
+  if !parked s then s
+  else if s.resp.isSome then s
   else if s.cleaned then s
   else if s.urr then s
   else
-    let s := { s with urr := true, perTry := false, global := false }
-    sendNotify (sendHijack (orFlag s DownStreamTerminate) code false)
+    { resetUpstream c s with
+        urr := true, perTry := false, global := false, flags := s.flags ||| DownStreamTerminate,
+        respCode := code, statusVar := some code, resp := some ⟨false, false⟩, direct := true, notify := true }
 
 def step (c : Cfg) (s : S) : Label → S
   | .work => work c s
@@ -623,6 +634,7 @@ def step (c : Cfg) (s : S) : Label → S
   | .globalFire => globalFire c s
   | .downReset r => downResetL c s r
   | .connClose => connClose s
+  | .terminate code => terminateL c s code
 
 /-- initial state for ambient load (slots held by other requests of the cluster) -/
 def init (ambRetries ambRequests : Nat) : S := { retries := ambRetries, requests := ambRequests, upActive := 0 }
